@@ -163,9 +163,31 @@ def _fmt_choices(files, tier):
                 yield set(c)
 
 
+def _decoy_cwd():
+    """The process works from a directory that holds look-alikes of every
+    relative name the configuration uses (a policy.yaml, a policy.json, the
+    directories d0..d3 with files in them).  None of it is configuration:
+    relative names are resolved against the configuration directory only."""
+    d = os.path.join(core.scratch(), "decoy-cwd")
+    if not os.path.isdir(d):
+        os.makedirs(d)
+        body = world.dumps_policy({n: 'role:DECOY' for n in NAMES + (
+            'svc:nowhere', 'marker')})
+        for rel in ('policy.yaml', 'policy.json', 'other.yaml',
+                    'd0/zz.yaml', 'd1/zz.yaml', 'd2[x]/zz.yaml',
+                    'd3/zz.yaml', 'explicit.yaml', 'gone.yaml'):
+            os.makedirs(os.path.dirname(os.path.join(d, rel)) or d,
+                        exist_ok=True)
+            with open(os.path.join(d, rel), 'w') as f:
+                f.write(body if not rel.endswith('json') else json.dumps(
+                    {n: 'role:DECOY' for n in NAMES}))
+    os.chdir(d)
+
+
 def run(job, seed):
     from oslo_policy import policy as P
     acc = core.Acc()
+    _decoy_cwd()
     if job['space'] == 'pick':
         return run_pick(acc, P, job)
     if job['space'] == 'scope':
